@@ -12,6 +12,7 @@
 
 #include <array>
 #include <limits>
+#include <new>
 #include <cstddef>
 #include <cstdint>
 #include <cstring>
